@@ -188,6 +188,7 @@ def runCase (c : Case) : String × String :=
   | "unframe" => runUnframe c
   | "snapblock" => runSnapblock c
   | "names" => runNames c
+  | "filelist" => runFilelist c
   | "map" => runMap c
   | "alnw" => runAlnw c
   | "hist" =>
